@@ -64,3 +64,19 @@ instance : Arith Float where
   le a b := decide (a ≤ b)
   beq a b := a == b
   ofNat := Float.ofNat
+
+/-- Go integer element types (`int`, `int64` without overflow): exact ring operations, `/` truncates toward zero.
+    `sqrt`/`round` are the `T(math.Sqrt(float64(x)))` conversions and are not used by the integer-safe indicators. -/
+instance : Arith Int where
+  add := Int.add
+  sub := Int.sub
+  mul := Int.mul
+  div := Int.tdiv
+  neg := Int.neg
+  abs a := Int.ofNat a.natAbs
+  sqrt a := Int.ofNat (Nat.sqrt a.toNat)
+  round a := a
+  lt a b := decide (a < b)
+  le a b := decide (a ≤ b)
+  beq a b := a == b
+  ofNat n := Int.ofNat n
